@@ -39,6 +39,12 @@ EXPLANATION = ("Theorems (unbounded): is_feasible/is_exhaustive iff their defini
                "cardinality (exchange argument); brute-force oracles are the true optima; is_trivial iff everything "
                "fits or nothing does.  Tie: implementation answers compared in Coq with model and oracles.")
 
+# near-boundary pool: totals that miss or exceed a round budget by 1e-7 .. 1e-12 (a tolerance / float shortcut in a
+# comparison shows here), and integers beyond 2**53
+NEAR = ["1/2", "1/2", "2000001/4000000", "1999999/4000000", "1/3", "333333333334/1000000000000",
+        "1000000000001/1000000000000", 1, "999999999999/1000000000000"]
+BIG = [2 ** 58 + 1, 2 ** 58 + 2, 2 ** 58 + 3, 2 ** 57, 2 ** 58]
+
 POOLS = [
     [0, 1, 1, 2, 2, 3],
     [1, 2, 3, 4, 5],
@@ -57,6 +63,10 @@ def gen(rng, i, tier):
     kind = "maxcost" if i % 4 == 3 else "pure"
     n = rng.choice([0, 1, 2, 3, 3, 4, 4, 5, 5, 6, 7, 8]) if kind == "pure" else rng.choice([1, 2, 3, 4, 5, 6])
     pool = rng.choice(POOLS)
+    if i % 7 == 5 and kind == "pure":
+        # (not for the MIP-backed maximum-cost helper: differences below the solver's own tolerances are
+        # the solver's business, excluded by the property)
+        pool = NEAR if i % 14 == 5 else BIG
     costs = [pb.qs(rng.choice(pool)) for _ in range(n)]
     if kind == "maxcost" and all(pb.F(c) == 0 for c in costs):
         costs[0] = "1/1"     # an all-zero knapsack row aborts CBC (excluded by the property)
@@ -77,6 +87,8 @@ def gen(rng, i, tier):
         b = tot * Fraction(rng.randrange(0, 9), 8)
     else:
         b = max(Fraction(0), min(pb.F(c) for c in costs) - Fraction(1, 3))
+    if i % 14 == 5 and n and kind == "pure":
+        b = Fraction(rng.choice([1, 1, 2, "3/2", "5/6"]))
     order = list(range(n))
     rng.shuffle(order)
     case = {"kind": kind, "costs": costs, "budget": pb.qs(b), "order": order, "solver": kind == "maxcost"}
